@@ -11,7 +11,9 @@ FAMILY = 'Prune'
 DRIVER = 'prune'
 HOOK_COMMITS = ['7541e9f']   # verif hook: mavl db VerifResetGlobals/VerifWaitPrune (H4)
 FIX_COMMITS = ['8f272d6',   # fix: mavl pruning deleted the root record shared with a retained state
-               '161afb0']   # fix: mavl re-commit cleanup missed the version-index entry of a one-leaf tree
+               '161afb0',   # fix: mavl re-commit cleanup missed the version-index entry of a one-leaf tree
+               'c0b4a0e',   # fix: kept-root window below an abandoned branch
+               '6a501fe']   # fix: re-commit cleanup removes the entry of every leaf stored at that height
 
 PROPS = {
     'C05': dict(
@@ -19,8 +21,8 @@ PROPS = {
              'change, re-commits, retained interval) and a mechanism model of the implementation\'s leaf-version index, '
              'root-hash records, re-commit cleanup and first/second/third-level pruning scans are model-checked with TLC: on '
              'the mechanism model PruneSafe (every key of every retained state reads its value) holds exhaustively for '
-             'linear histories of the repaired code and TLC produces counterexamples for the code as found and for '
-             'reorganised histories. TLC-generated commit/reorg/prune/reopen histories (heights in the first-, second- and '
+             'linear histories of the repaired code, with reorganisations every violation is shown to belong to one known class, '
+             'and TLC produces the counterexamples for the code as found and for that class. TLC-generated commit/reorg/prune/reopen histories (heights in the first-, second- and '
              'third-level bands) are replayed into the real mavl store module on LevelDB, reading every key at every retained '
              'root after every step and comparing the mechanism model\'s predicted database shape; seeded random recordings '
              'on 12-key trees are validated against the trace specification.',
@@ -158,27 +160,34 @@ def run(ctx):
         ctx.write_cfg(stage, 'Prune_MCt.cfg', _cfg(rd('Prune_MC.cfg'), NK=3, MaxSteps=5, PruneH=3, MaxJump=2))
         ctx.tlc_mc('Prune_MC', 'Prune_MCt.cfg', workers=4, timeout=7200, stage=stage, coverage=True)
 
-    # ---- 2. mechanism model: the repaired code is safe on linear histories (exhaustive, bounded)
-    lin = [('PruneMech_MC.cfg', {})]
-    if not q:
-        lin += [('PruneMech_MC_ph1.cfg', dict(PruneH=1)), ('PruneMech_MC_ph3.cfg', dict(PruneH=3, MaxSteps=5)),
-                ('PruneMech_MC_b.cfg', dict(Heights='MCHeightsBands', MaxSteps=5, MaxJump=2)),
-                ('PruneMech_MC_k3.cfg', dict(NK=3, MaxSteps=5, MaxJump=2))]
+    # ---- 2. mechanism model (exhaustive, bounded): the repaired code is safe on linear histories (PruneSafe), and
+    # ---- with reorganisations every violation belongs to the known class (Explained = PruneSafe \/ StaleShadow)
     cands = []
-    for name, kv in lin:
-        if kv:
-            ctx.write_cfg(stage, name, _cfg(rd('PruneMech_MC.cfg'), EmitOn='TRUE', **kv))
-        r = ctx.tlc_mc('PruneMech_MC', name, workers=4, timeout=7200, stage=stage, expect_violation=True, coverage=(not q and not kv))
+
+    def holds(name, base, kv, what):
+        """invariants of cfg `name` must hold; a violation is a candidate that is replayed on the code"""
+        ctx.write_cfg(stage, name, _cfg(rd(base), EmitOn='FALSE', **kv))
+        r = ctx.tlc_mc('PruneMech_MC', name, workers=4, timeout=14400, stage=stage, expect_violation=True)
         if r['violation']:
-            if not kv:  # rerun with labels to get the behaviour
-                ctx.write_cfg(stage, 'PruneMech_MC_e.cfg', _cfg(rd('PruneMech_MC.cfg'), EmitOn='TRUE'))
-                r = ctx.tlc_mc('PruneMech_MC', 'PruneMech_MC_e.cfg', workers=4, timeout=7200, stage=stage, expect_violation=True, count=False)
-            cands.append(counterexample(r, 'cex-linear-' + name))
-            ctx.notes.append('mechanism model (repaired, linear histories) violates %s in %s: candidate replayed' % (r['violation'], name))
-    ctx.extra['mech_linear_safe_configs'] = [n for n, _ in lin if not any(c['id'].endswith(n) for c in cands)]
+            ctx.write_cfg(stage, 'e-' + name, _cfg(rd(base), EmitOn='TRUE', **kv))
+            r = ctx.tlc_mc('PruneMech_MC', 'e-' + name, workers=4, timeout=14400, stage=stage, expect_violation=True, count=False)
+            cands.append(counterexample(r, 'cex-%s-%s' % (what, name)))
+            ctx.notes.append('mechanism model violates %s in %s (%s): candidate replayed on the code' % (r['violation'], name, what))
+            return False
+        return True
+    lin = [('PruneMech_MC_lin.cfg', {})]
+    expl = [('PruneMech_MCexpl_q.cfg', dict(MaxSteps=4))]
+    if not q:
+        lin += [('PruneMech_MC_ph1.cfg', dict(PruneH=1)), ('PruneMech_MC_ph3.cfg', dict(PruneH=3)),
+                ('PruneMech_MC_b.cfg', dict(Heights='MCHeightsBands', MaxJump=2)),
+                ('PruneMech_MC_k3.cfg', dict(NK=3, MaxJump=2))]
+        expl += [('PruneMech_MCexpl_ph2.cfg', {}), ('PruneMech_MCexpl_ph3.cfg', dict(PruneH=3))]
+    ctx.extra['mech_linear_safe_configs'] = [n for n, kv in lin if holds(n, 'PruneMech_MC.cfg', kv, 'linear')]
+    ctx.extra['mech_reorg_violations_all_of_known_class_configs'] = [n for n, kv in expl if holds(n, 'PruneMech_MCexpl.cfg', kv, 'reorg')]
 
     # ---- 3. mechanism model with reorganisations / as found: TLC counterexamples are candidates
     for name in ('PruneMech_MCfork.cfg', 'PruneMech_MCorig.cfg'):
+        ctx.write_cfg(stage, name, rd(name))
         r = ctx.tlc_mc('PruneMech_MC', name, workers=4, timeout=7200, stage=stage, expect_violation=True)
         if r['violation'] in ('PruneSafe', 'NoCrash'):
             cands.append(counterexample(r, 'cex-' + name))
@@ -269,7 +278,7 @@ def run(ctx):
         lines = [l for l in open(tp) if l.strip()]
         resets = [i for i, l in enumerate(lines) if json.loads(l).get('ev') == 'Reset']
         start, accepted_traces, first_ok, first_fail = 0, 0, None, None
-        for _round in range(8):
+        for _round in range(8 if q else 40):
             part = tp + '.part%d' % _round
             open(part, 'w').writelines(lines[start:])
             r = ctx.tlc_trace('Prune_Trace', name, part, stage=stage, timeout=3600)
